@@ -22,6 +22,14 @@ const prelude = `(set-option :produce-models true)
 (define-fun gomod ((a Int) (b Int)) Int (- a (* b (godiv a b))))
 (define-fun imin ((a Int) (b Int)) Int (ite (<= a b) a b))
 (define-fun imax ((a Int) (b Int)) Int (ite (>= a b) a b))
+; bit masks of a symbolic non-negative value with a constant (see bitop)
+(declare-fun band (Int Int) Int)
+(declare-fun bandnot (Int Int) Int)
+(declare-fun bor (Int Int) Int)
+(define-fun pow2 ((k Int)) Bool (or (= k 1) (= k 2) (= k 4) (= k 8) (= k 16) (= k 32) (= k 64) (= k 128) (= k 256) (= k 512) (= k 1024) (= k 2048) (= k 4096) (= k 8192) (= k 16384) (= k 32768) (= k 65536) (= k 131072) (= k 262144) (= k 524288) (= k 1048576)))
+(assert (forall ((x Int) (k Int)) (! (and (<= 0 (band x k)) (<= (band x k) k) (=> (pow2 k) (or (= (band x k) 0) (= (band x k) k)))) :pattern ((band x k)))))
+(assert (forall ((x Int) (k Int)) (! (=> (>= x 0) (and (<= 0 (bandnot x k)) (<= (bandnot x k) x))) :pattern ((bandnot x k)))))
+(assert (forall ((x Int) (k Int)) (! (=> (>= x 0) (>= (bor x k) k)) :pattern ((bor x k)))))
 ; string identity by content: sid(arr, lo, hi)
 (declare-fun sid ((Array Int Int) Int Int) Int)
 (declare-fun sidlen (Int) Int)
